@@ -7,12 +7,32 @@
 //! then `CoreRuntime::step(1)` N times.  After every step it reports PC, S, F and the IMR cell
 //! (`read_internal_byte_silent(0xFB)`); the comparison is done on the Python side (c05_pairs.py).
 //!
-//! request : {"cases":[{"sio":bool,"regs":{"BA","I","X","Y","U","S","PC","F"},"mem":[[addr,byte],..],"steps":n}]}
-//! response: {"ok":true,"results":[{"trace":[[pc,s,f,imr],..],"err":null|"..."}]}
+//!
+//! Round 4: the machine's memory map is part of the case (`map`): RAM overlays (`add_ram_overlay`), a memory
+//! card (`load_memory_card`, zero-filled image of a supported size) and host-delegated ranges
+//! (`MemoryImage::set_python_ranges` + `set_host_read`/`set_host_write` backed by a byte map that stores what
+//! is written and returns what was stored, 0 otherwise - the way an embedding host attaches RAM it owns).
+//! `reject` performs one operation the runtime rejects (or ignores) before the program runs; `chunks` runs
+//! the program through bulk `step(n)` calls instead of `step(1)` (one trace entry per chunk).
+//!
+//! request : {"cases":[{"sio":bool,"regs":{"BA","I","X","Y","U","S","PC","F"},"mem":[[addr,byte],..],"steps":n,
+//!                      "map":{"overlays":[[start,size,name],..],"card":size|null,"host":[[lo,hi],..]},
+//!                      "reject":"card"|"snap"|"model"|"ovl0"|"step0"|null,"chunks":[n1,n2,..]|null}]}
+//! response: {"ok":true,"results":[{"trace":[[pc,s,f,imr],..],"err":null|"...","host_rw":[reads,writes],
+//!                                  "ovl_rw":[reads,writes],"rejected":bool|null}]}
 use sc62015_core::llama::opcodes::RegName;
-use sc62015_core::CoreRuntime;
+use sc62015_core::{CoreRuntime, DeviceModel};
 use serde_json::{json, Value};
+use std::collections::HashMap;
 use std::io::{BufRead, Write};
+use std::sync::{Arc, Mutex};
+
+#[derive(Default)]
+struct HostRam {
+    bytes: HashMap<u32, u8>,
+    reads: u64,
+    writes: u64,
+}
 
 const IMR: u32 = 0xFB;
 
@@ -24,6 +44,58 @@ fn run_case(case: &Value) -> Value {
     let mut rt = CoreRuntime::new();
     if case.get("sio").and_then(|v| v.as_bool()).unwrap_or(false) {
         rt.enable_sio_stub();
+    }
+    let host = Arc::new(Mutex::new(HostRam::default()));
+    if let Some(map) = case.get("map").filter(|m| m.is_object()) {
+        if let Some(ovs) = map.get("overlays").and_then(|v| v.as_array()) {
+            for ov in ovs {
+                let start = ov.get(0).and_then(|x| x.as_u64()).unwrap_or(0) as u32;
+                let size = ov.get(1).and_then(|x| x.as_u64()).unwrap_or(0) as usize;
+                let name = ov.get(2).and_then(|x| x.as_str()).unwrap_or("ram");
+                rt.add_ram_overlay(start, size, name);
+            }
+        }
+        if let Some(size) = map.get("card").and_then(|v| v.as_u64()) {
+            if let Err(e) = rt.load_memory_card(&vec![0u8; size as usize]) {
+                return json!({"trace": [], "err": format!("load_memory_card: {e}")});
+            }
+        }
+        if let Some(hs) = map.get("host").and_then(|v| v.as_array()) {
+            let ranges: Vec<(u32, u32)> = hs
+                .iter()
+                .map(|r| {
+                    (
+                        r.get(0).and_then(|x| x.as_u64()).unwrap_or(0) as u32,
+                        r.get(1).and_then(|x| x.as_u64()).unwrap_or(0) as u32,
+                    )
+                })
+                .collect();
+            if !ranges.is_empty() {
+                rt.memory.set_python_ranges(ranges.clone());
+                let rd = host.clone();
+                let rr = ranges.clone();
+                rt.set_host_read(move |addr| {
+                    let a = addr & 0x00FF_FFFF;
+                    if rr.iter().any(|(lo, hi)| a >= *lo && a <= *hi) {
+                        let mut h = rd.lock().unwrap();
+                        h.reads += 1;
+                        Some(h.bytes.get(&a).copied().unwrap_or(0))
+                    } else {
+                        None
+                    }
+                });
+                let wr = host.clone();
+                let wrr = ranges;
+                rt.set_host_write(move |addr, value| {
+                    let a = addr & 0x00FF_FFFF;
+                    if wrr.iter().any(|(lo, hi)| a >= *lo && a <= *hi) {
+                        let mut h = wr.lock().unwrap();
+                        h.writes += 1;
+                        h.bytes.insert(a, value);
+                    }
+                });
+            }
+        }
     }
     if let Some(mem) = case.get("mem").and_then(|v| v.as_array()) {
         for pair in mem {
@@ -54,11 +126,32 @@ fn run_case(case: &Value) -> Value {
             rt.state.set_pc(v);
         }
     }
+    // one operation the runtime rejects (Err) or ignores, before the program runs
+    let rejected: Value = match case.get("reject").and_then(|v| v.as_str()) {
+        Some("card") => json!(rt.load_memory_card(&[0u8; 100]).is_err()),
+        Some("snap") => json!(rt
+            .load_snapshot(std::path::Path::new("/nonexistent/vh_c05/none.pcsnap"))
+            .is_err()),
+        Some("model") => json!(rt.set_device_model(DeviceModel::Iq7000).is_err()),
+        Some("ovl0") => {
+            let before = rt.overlays().len();
+            rt.add_ram_overlay(0x30000, 0, "vh_c05_empty");
+            json!(rt.overlays().len() == before)
+        }
+        Some("step0") => json!(rt.step(0).is_ok()),
+        _ => Value::Null,
+    };
+    rt.clear_overlay_logs();
     let steps = case.get("steps").and_then(|v| v.as_u64()).unwrap_or(0);
-    let mut trace: Vec<Value> = Vec::with_capacity(steps as usize);
+    let plan: Vec<usize> = match case.get("chunks").and_then(|v| v.as_array()) {
+        Some(c) => c.iter().map(|x| x.as_u64().unwrap_or(0) as usize).collect(),
+        None => vec![1; steps as usize],
+    };
+    let mut trace: Vec<Value> = Vec::with_capacity(plan.len());
     let mut error = Value::Null;
-    for k in 0..steps {
-        let r = std::panic::catch_unwind(std::panic::AssertUnwindSafe(|| rt.step(1)));
+    for (k, n) in plan.iter().enumerate() {
+        let n = *n;
+        let r = std::panic::catch_unwind(std::panic::AssertUnwindSafe(|| rt.step(n)));
         match r {
             Ok(Ok(())) => {}
             Ok(Err(e)) => {
@@ -77,7 +170,12 @@ fn run_case(case: &Value) -> Value {
             rt.memory.read_internal_byte_silent(IMR).unwrap_or(0),
         ]));
     }
-    json!({"trace": trace, "err": error})
+    let (hr, hw) = {
+        let h = host.lock().unwrap();
+        (h.reads, h.writes)
+    };
+    json!({"trace": trace, "err": error, "host_rw": [hr, hw], "rejected": rejected,
+           "ovl_rw": [rt.overlay_read_log().len(), rt.overlay_write_log().len()]})
 }
 
 fn main() {
